@@ -257,7 +257,7 @@ def run(tier, seed):
               "(similarity graph, resulting partition); non-trivial = a component of size >=3 or >=2 merge groups")
     r.bounds = {"tier": tier, "n_max": 5 if tier == "quick" else 6}
     r.assumptions = ["the relation is computed on original key sets; thresholds use exactly representable ratios"]
-    budget = 50 if tier == "quick" else 900
+    budget = 240 if tier == "quick" else 1500
     for case, res in core.pmap(execute, _cases(tier), chunksize=256, budget_s=budget):
         r.add(case, res)
     if core.pmap.capped:
